@@ -504,6 +504,16 @@ Definition eng_token (inp impl : node) : verdict :=
       let all_wf := forallb (fun o => is_err_obs o || fields_wf o) (nlist impl) in
       {| model_obs := List [fm; fm; fm; fm];
          violated := (if all_equal then [] else [lit "C07"]) ++ (if all_wf then [] else [lit "C10"]) |}
+  (* the same for a token built with an instant between two seconds: "time bounds compared at whole-second resolution"
+     lets it come back as either neighbouring second ([f0] floor, [f0r] nearest) *)
+  | List [Str op; Str ty; payload; f0; f0r] =>
+      let fm := if str_eqb ty (lit "dlg") then fields_res dlg_fields (dlg_from_payload payload)
+                else fields_res inv_fields (inv_from_payload payload) in
+      let all_equal := (forallb (fun o => node_eqb o f0) (nlist impl) || forallb (fun o => node_eqb o f0r) (nlist impl))
+                       && (length (nlist impl) =? 4)%nat in
+      let all_wf := forallb (fun o => is_err_obs o || fields_wf o) (nlist impl) in
+      {| model_obs := List [fm; fm; fm; fm];
+         violated := (if all_equal then [] else [lit "C07"]) ++ (if all_wf then [] else [lit "C10"]) |}
   (* a constructor call: which principals are defined, the command, the nonce given (length, -1 = none),
      two time bounds in seconds, the largest policy integer -> accepted (with the nonce length) or rejected *)
   | List [Str op; Str ty; Map spec] =>
@@ -513,24 +523,31 @@ Definition eng_token (inp impl : node) : verdict :=
       let given := if (nl <? 0)%Z then [] else repeat 1 (Z.to_nat nl) in
       let r12 := repeat 2 12%nat in
       let pol := [TCmp (lit "==") [] (Int (nint (g (lit "polmax"))))] in
-      let m := if str_eqb ty (lit "dlg")
-               then match dlg_new (d (g (lit "iss"))) (d (g (lit "other"))) None (nstr (g (lit "cmd"))) pol given r12 []
-                                  (oz (g (lit "t1"))) (oz (g (lit "t2"))) with
-                    | Ok t => List [Str (lit "ok"); Int (Z.of_nat (length (dk_nonce t)))]
+      let run (t1 t2 : option Z) :=
+               if str_eqb ty (lit "dlg")
+               then match dlg_new (d (g (lit "iss"))) (d (g (lit "other"))) None (nstr (g (lit "cmd"))) pol given r12 [] t1 t2 with
+                    | Ok t => List [Str (lit "ok"); Int (Z.of_nat (length (dk_nonce t))); Bool true]
                     | _ => List [Str (lit "err")] end
-               else match inv_new (d (g (lit "iss"))) (d (g (lit "other"))) None (nstr (g (lit "cmd"))) [] [] given r12 []
-                                  (oz (g (lit "t2"))) (oz (g (lit "t1"))) None with
-                    | Ok t => List [Str (lit "ok"); Int (Z.of_nat (length (ik_nonce t)))]
+               else match inv_new (d (g (lit "iss"))) (d (g (lit "other"))) None (nstr (g (lit "cmd"))) [] [] given r12 [] t2 t1 None with
+                    | Ok t => List [Str (lit "ok"); Int (Z.of_nat (length (ik_nonce t))); Bool true]
                     | _ => List [Str (lit "err")] end in
+      let m := run (oz (g (lit "t1"))) (oz (g (lit "t2"))) in
+      (* an instant between two seconds is recorded as one of its neighbours ("whole-second resolution"): the bound applies to
+         whichever the implementation records; t1r / t2r carry the other neighbour when there is one *)
+      let has k := match mget_l k spec with Null => false | _ => true end in
+      let m_alt := run (if has (lit "t1r") then oz (g (lit "t1r")) else oz (g (lit "t1")))
+                       (if has (lit "t2r") then oz (g (lit "t2r")) else oz (g (lit "t2"))) in
+      let m := if is_err_obs impl then (if is_err_obs m_alt then m_alt else m)
+               else (if is_err_obs m then m_alt else m) in
       (* C10: nothing ill-formed comes out; C07: what comes out must be sealable, i.e. exactly the validated ones *)
       let accepted := negb (is_err_obs impl) in
       let c10_ok := negb accepted ||
                     (nbool (g (lit "iss")) && nbool (g (lit "other")) &&
-                     match impl with List [_; Int l] => (12 <=? l)%Z | _ => false end) in
+                     match impl with List [_; Int l; _] => (12 <=? l)%Z | _ => false end) in
       (* a generated nonce has "at least 12 bytes": its exact length is the implementation's choice *)
       let m := match m, impl with
-               | List [Str _; Int _], List [Str o; Int l] =>
-                   if (nl <=? 0)%Z && str_eqb o (lit "ok") && (12 <=? l)%Z then impl else m
+               | List [Str _; Int _; b], List [Str o; Int l; _] =>
+                   if (nl <=? 0)%Z && str_eqb o (lit "ok") && (12 <=? l)%Z then List [Str o; Int l; b] else m
                | _, _ => m
                end in
       {| model_obs := m;
